@@ -109,20 +109,20 @@ def parseNext : Nat → Bytes → Except Err Frame × Bytes
 /-! ### writers -/
 
 /-- `x.Append(nil)` of two varints; `none` = a varint does not fit (Go panics). -/
-def appendPair (a b : Nat) : Option Bytes := do
-  let x ← append a
-  let y ← append b
-  pure (x ++ y)
+def appendPair (a b : Nat) : Option Bytes :=
+  match append a, append b with
+  | some x, some y => some (x ++ y)
+  | _, _ => none
 
 def appendData (length : Nat) : Option Bytes := appendPair 0 length
 def appendHeaders (length : Nat) : Option Bytes := appendPair 1 length
 
 def appendPairs : List (Nat × Nat) → Option Bytes
   | [] => some []
-  | (id, v) :: rest => do
-    let x ← appendPair id v
-    let y ← appendPairs rest
-    pure (x ++ y)
+  | (id, v) :: rest =>
+    match appendPair id v, appendPairs rest with
+    | some x, some y => some (x ++ y)
+    | _, _ => none
 
 /-- the SETTINGS payload `settingsFrame.Append` writes after the frame header. -/
 def settingsPayload (s : Settings) : Option Bytes :=
@@ -131,9 +131,12 @@ def settingsPayload (s : Settings) : Option Bytes :=
 
 /-- `settingsFrame.Append(nil)`; the length is computed with `Len`, which agrees with the
 length of what `Append` writes (`varint_len`). -/
-def appendSettings (s : Settings) : Option Bytes := do
-  let p ← settingsPayload s
-  let h ← appendPair 4 p.length
-  pure (h ++ p)
+def appendSettings (s : Settings) : Option Bytes :=
+  match settingsPayload s with
+  | none => none
+  | some p =>
+    match appendPair 4 p.length with
+    | none => none
+    | some h => some (h ++ p)
 
 end Req.H3.Frame
